@@ -90,6 +90,31 @@ type chain struct {
 	inBlock  bool
 	started  time.Time
 	addrIdx  map[string]int
+	// recording for twin / restart replays
+	genesisBytes []byte
+	genesisTime  time.Time
+	blocks       []blockRec
+	results      []blockRes
+}
+
+type blockRec struct {
+	TimeNs int64    `json:"time_ns"`
+	Txs    [][]byte `json:"txs"`
+}
+
+type txRes struct {
+	Code      uint32 `json:"code"`
+	Codespace string `json:"codespace"`
+	Data      []byte `json:"data"`
+	GasWanted int64  `json:"gas_wanted"`
+	GasUsed   int64  `json:"gas_used"`
+}
+
+type blockRes struct {
+	Height   int64   `json:"height"`
+	AppHash  []byte  `json:"app_hash"`
+	Txs      []txRes `json:"txs"`
+	Reopened bool    `json:"reopened"` // the application object was re-created from the database before or during this block
 }
 
 func setBech32() {
@@ -203,6 +228,8 @@ func newChain(cfg chainCfg) *chain {
 	stateBytes, _ := json.MarshalIndent(gs, "", " ")
 	c.now = time.Unix(1700000000, 0).UTC()
 	c.started = c.now
+	c.genesisBytes = stateBytes
+	c.genesisTime = c.now
 	a.InitChain(abci.RequestInitChain{
 		ChainId:         chainID,
 		Time:            c.now,
@@ -241,6 +268,8 @@ func (c *chain) begin(dt time.Duration) (panicked interface{}) {
 	c.height++
 	c.now = c.now.Add(dt)
 	c.inBlock = true
+	c.blocks = append(c.blocks, blockRec{TimeNs: c.now.UnixNano()})
+	c.results = append(c.results, blockRes{Height: c.height})
 	c.app.BeginBlock(abci.RequestBeginBlock{Header: c.header()})
 	return nil
 }
@@ -258,6 +287,9 @@ func (c *chain) end(_ interface{}) (panicked interface{}) {
 func (c *chain) commit() []byte {
 	r := c.app.Commit()
 	c.inBlock = false
+	if n := len(c.results); n > 0 {
+		c.results[n-1].AppHash = r.Data
+	}
 	return r.Data
 }
 
@@ -355,6 +387,10 @@ func (c *chain) deliver(ts txSpec) (txResult, []byte) {
 		return txResult{Code: 999999, Codespace: "harness", Log: err.Error()}, nil
 	}
 	r := c.app.DeliverTx(abci.RequestDeliverTx{Tx: bz})
+	if n := len(c.blocks); n > 0 {
+		c.blocks[n-1].Txs = append(c.blocks[n-1].Txs, bz)
+		c.results[n-1].Txs = append(c.results[n-1].Txs, txRes{r.Code, r.Codespace, r.Data, r.GasWanted, r.GasUsed})
+	}
 	return txResult{r.Code, r.Codespace, r.Log, r.GasUsed, r.GasWanted, r.Data, r.Events}, bz
 }
 
